@@ -204,7 +204,8 @@ class IterativeFinder(AsyncIterator):
         t = self.loop.create_task(self._send_probe(peer))
 
         def callback(_):
-            self.running_probes.pop(peer, None)
+            if self.running_probes.get(peer) is t:  # a finished probe only removes its own entry
+                self.running_probes.pop(peer, None)
             if self.running:
                 self._search_round()
 
